@@ -10,6 +10,62 @@ from build import *            # noqa: E402,F401,F403
 from build_pomdp import build_pomdp   # noqa: E402
 
 
+LABELS = {
+    "int": lambda i: i,
+    "str": lambda i: ["", "b", "a10", "a9", "Z"][i],           # "" is falsy; sorted order != id order
+    "tuple": lambda i: [(), (1,), (0, 1), (0,), (2,)][i],       # () is falsy
+    "float": lambda i: [0.0, -1.5, 2.0, 0.5, 0.001][i],         # 0.0 is falsy
+}
+
+
+def build_labelled(case, labels, reward_scale=1.0):
+    """TabularPOMDP over the case's ids relabelled by `labels` (kinds for states/actions/obs);
+    returns (pomdp, state label->id, action label->id, observation label->id)"""
+    from msdm.core.pomdp.tabularpomdp import TabularPOMDP
+    from msdm.core.distributions import DictDistribution
+    ls, la, lo = LABELS[labels["states"]], LABELS[labels["actions"]], LABELS[labels["obs"]]
+    trans, rew, obs = {}, {}, {}
+    for k, row in case["trans"].items():
+        s, a = map(int, k.split(","))
+        trans[(ls(s), la(a))] = DictDistribution({ls(ns): fl(p) for ns, p in row})
+    for k, r in case["reward"].items():
+        s, a, ns = map(int, k.split(","))
+        rew[(ls(s), la(a), ls(ns))] = fl(r) * reward_scale
+    for k, row in case["obs"].items():
+        a, ns = map(int, k.split(","))
+        obs[(la(a), ls(ns))] = DictDistribution({lo(o): fl(p) for o, p in row})
+    actions = {ls(s): tuple(la(a) for a in acts) for s, acts in enumerate(case["actions"])}
+    absorbing = {ls(s): bool(x) for s, x in enumerate(case["absorbing"])}
+    init = DictDistribution({ls(s): fl(p) for s, p in case["init"]})
+    gamma = fl(case["gamma"])
+    if case["gamma"] in ("0", "1"):
+        gamma = int(case["gamma"])            # boundary passed as int, not float
+
+    class GeneratedPOMDP(TabularPOMDP):
+        discount_rate = gamma
+
+        def next_state_dist(self, s, a):
+            return trans[(s, a)]
+
+        def reward(self, s, a, ns):
+            return rew.get((s, a, ns), 0.0)
+
+        def actions(self, s):
+            return actions[s]
+
+        def initial_state_dist(self):
+            return init
+
+        def is_absorbing(self, s):
+            return absorbing[s]
+
+        def observation_dist(self, a, ns):
+            return obs[(a, ns)]
+
+    return (GeneratedPOMDP(), {ls(i): i for i in range(case["n"])}, {la(i): i for i in range(case["nA"])},
+            {lo(i): i for i in range(case["nO"])})
+
+
 def guarded(fn):
     try:
         return fn()
@@ -46,12 +102,15 @@ def representations(pomdp, sl, probs, which):
     return reps
 
 
-def query(policy, pomdp, sl, al, beliefs, which):
+def query(policy, pomdp, sl, al, beliefs, which, sid, initial_index=None):
     out = []
-    for bq in beliefs:
-        probs = tuple(fl(x) for x in bq)
+    for bi, bq in enumerate(beliefs):
+        probs = tuple(fl(bq[sid[s]]) for s in sl)
         res = None
-        for name, b in representations(pomdp, sl, probs, which).items():
+        reps = representations(pomdp, sl, probs, which)
+        if bi == initial_index:
+            reps["initial_agentstate"] = policy.initial_agentstate()    # the belief object the library builds
+        for name, b in reps.items():
             def one(b=b):
                 dist = policy.action_dist(b)
                 return {"value": fj(policy.value(b)),
@@ -75,10 +134,21 @@ def one(case, pl):
     from msdm.algorithms.valueiteration import ValueIteration
     from msdm.algorithms.policyiteration import PolicyIteration
 
-    pomdp = build_pomdp(case["pomdp"])
+    labels = case.get("labels") or {"states": "int", "actions": "int", "obs": "int"}
+    pomdp, sid, aid, oid = build_labelled(case["pomdp"], labels)
+    warm = None
+    if case.get("reuse"):
+        # same labels, rewards x64: planners are first used on this one, then REUSED on `pomdp`
+        warm = build_labelled(case["pomdp"], labels, reward_scale=64.0)[0]
+    if case.get("touch_first"):
+        # cached views of the base object are touched before any planner sees it
+        _ = (pomdp.transition_matrix.sum(), pomdp.observation_matrix.sum(), pomdp.absorbing_state_vec.sum(),
+             pomdp.state_action_reward_matrix.sum(), pomdp.initial_state_vec.sum())
     sl, al, ol = list(pomdp.state_list), list(pomdp.action_list), list(pomdp.observation_list)
-    res = {"state_list": sl, "action_list": al, "observation_list": ol,
+    res = {"state_list": [sid[x] for x in sl], "action_list": [aid[x] for x in al],
+           "observation_list": [oid[x] for x in ol],
            "absorbing_vec": [bool(x) for x in pomdp.absorbing_state_vec]}
+    ii = case.get("initial_index")
 
     # ---- PBVI ----
     calls = []
@@ -116,10 +186,16 @@ def one(case, pl):
     def run_pbvi():
         pbvi_mod.point_based_value_iteration = recording
         try:
+            eps = fl(cfg["eps"])
+            if cfg["eps"] in ("0", "1"):
+                eps = int(cfg["eps"])         # boundary passed as int
             planner = PointBasedValueIteration(
                 min_belief_expansions=int(cfg["min_exp"]), max_belief_expansions=int(cfg["max_exp"]),
-                value_convergence_epsilon=fl(cfg["eps"]),
+                value_convergence_epsilon=eps,
                 horizon=None if cfg["horizon"] is None else int(cfg["horizon"]))
+            if warm is not None:
+                planner.plan_on(warm)
+                del calls[:]
             r = planner.plan_on(pomdp)
         finally:
             pbvi_mod.point_based_value_iteration = orig
@@ -128,18 +204,21 @@ def one(case, pl):
                 "n_calls": len(calls),
                 "last_call": calls[-1] if calls else None,
                 "first_call_belief_set_size": len(calls[0]["belief_set"]) if calls else 0,
-                "queries": query(r.policy, pomdp, sl, al, case["beliefs"], "alpha")}
+                "queries": query(r.policy, pomdp, sl, al, case["beliefs"], "alpha", sid, ii)}
     res["pbvi"] = guarded(run_pbvi)
 
     # ---- QMDP ----
     res["qmdp"] = {}
     for name in case.get("qmdp_solvers", ["vi", "pi"]):
         def run_q():
-            solver = ValueIteration(max_residual=1e-10) if name == "vi" else PolicyIteration()
-            r = QMDP(mdp_solver=solver).plan_on(pomdp)
+            # "pi" = QMDP() with its default solver (mdp_solver=None)
+            planner = QMDP(mdp_solver=ValueIteration(max_residual=1e-10)) if name == "vi" else QMDP()
+            if warm is not None:
+                planner.plan_on(warm)
+            r = planner.plan_on(pomdp)
             Q = r.mdp_res.action_value
             return {"Q": [[fj(Q[s][a]) for a in al] for s in sl],
-                    "queries": query(r.policy, pomdp, sl, al, case["beliefs"], "qmdp")}
+                    "queries": query(r.policy, pomdp, sl, al, case["beliefs"], "qmdp", sid, ii)}
         res["qmdp"][name] = guarded(run_q)
     return res
 
